@@ -1445,9 +1445,14 @@ class System:
                 ast = builder.parseFile(mod.source_path, mod)
             if ast:
                 self.processing_modules.append(mod.fullName())
-                if mod._py_string is None:
-                    self.msg("processModule", "processing %s"%(self.processing_modules), 1)
-                builder.processModuleAST(ast, mod)
+                try:
+                    if mod._py_string is None:
+                        self.msg("processModule", "processing %s"%(self.processing_modules), 1)
+                    builder.processModuleAST(ast, mod)
+                except RecursionError:
+                    # A construct too deeply nested (or an import chain too long) for the
+                    # recursive AST visitors: document what was collected so far.
+                    mod.report("cannot fully process module, maximum recursion depth exceeded")
                 mod.state = ProcessingState.PROCESSED
                 head = self.processing_modules.pop()
                 assert head == mod.fullName()
